@@ -163,6 +163,53 @@ theorem writeBitsWithOffsetLen_abs (b : BitBuffer) (src : List Byte) (off len : 
   obtain ⟨b', h1, h2, h3, h4, h5⟩ := writeBitsWithOffsetLen_spec b src off len h hs
   exact ⟨b', h1, h2, abs_of_bits b b' src off len h3 h5, h4⟩
 
+/-! ### writes placed at a position (`with_write_position_at`) -/
+
+/-- nothing grows when the bits fit into the octets that are there -/
+theorem ensure_of_fits (b : BitBuffer) (n : Nat) (hfit : b.wp + n ≤ b.buffer.length * 8) :
+    b.ensure n = b := by
+  unfold ensure
+  rw [byte_len_eq]
+  split
+  · have : (b.wp + n + 7) / 8 - b.buffer.length = 0 := by omega
+    simp [this]
+  · rfl
+
+/-- a write of `len` bits placed at `p`, inside the bits written so far: succeeds, changes exactly the
+    bits `p .. p + len` to the source bits, and leaves the length of the buffer, both cursors and the
+    invariant as they were -/
+theorem atPos_bits_spec (b : BitBuffer) (p : Nat) (src : List Byte) (off len : Nat) (h : b.Inv)
+    (hs : off + len ≤ src.length * 8) (hp : p + len ≤ b.wp) :
+    ∃ b', b.atPos p (fun b => b.writeBitsWithOffsetLen src off len) = ok b' ∧ b'.Inv ∧
+      b'.wp = b.wp ∧ b'.rp = b.rp ∧ b'.buffer.length = b.buffer.length ∧
+      ∀ j, getBit b'.buffer j =
+        if p ≤ j ∧ j < p + len then getBit src (off + (j - p)) else getBit b.buffer j := by
+  obtain ⟨h1, h2⟩ := h
+  have hcap : b.wp ≤ b.buffer.length * 8 := by omega
+  have hfit : ({ b with wp := p } : BitBuffer).wp + len ≤ ({ b with wp := p } : BitBuffer).buffer.length * 8 := by
+    simp only; omega
+  unfold atPos Outcome.assert
+  have hpos : p ≤ b.buffer.length * 8 := by omega
+  simp only [hpos, decide_true, ite_true, Outcome.bind_ok]
+  unfold writeBitsWithOffsetLen sliceWriteBitsWithOffsetLen failIf
+  rw [byte_len_eq]
+  have hpre : ¬ (src.length * 8 < off + len) := by omega
+  simp only [hpre, decide_false, Bool.false_eq_true, ite_false, Outcome.bind_ok,
+    bitStringCopyBulked_eq, ensure_of_fits _ _ hfit]
+  obtain ⟨hok, hlen, hbits⟩ := bitStringCopy_ok src off b.buffer p len (by omega) hs
+  rw [hok]
+  simp only [Outcome.bind_ok, Outcome.pure_def]
+  refine ⟨_, rfl, ⟨?_, ?_⟩, rfl, rfl, ?_, ?_⟩
+  · simp only; rw [hlen]; exact h1
+  · intro j hj
+    simp only at hj ⊢
+    rw [hbits j]
+    have : ¬ (p ≤ j ∧ j < p + len) := by omega
+    simp only [this, ite_false]
+    exact h2 j hj
+  · simp only; exact hlen
+  · intro j; simp only; exact hbits j
+
 /-! ### reading -/
 
 theorem readBit_spec (b : BitBuffer) (h : b.wp ≤ b.buffer.length * 8) :
